@@ -68,6 +68,9 @@ T = {
  "C13": ("TLC model checking of the dual-tree RRT-connect algorithm (spec/Rrt.tla: LoopHead, Sample+extend, Connect, swap, path assembly, cancellation) + replay of every complete model behaviour into the real dual_rrt_connect with scripted closures (hook H2) + trace validation of real plan_rrt runs (Trace_Rrt)",
          "PathOK, CancelOK and TreesFree hold in every reachable state of the bounded model (all sample sequences, blocked cells, cancellation points); for every sample script the real implementation's sequence of freeness queries and assembled path must be a behaviour of the model; real planner runs on robots with shape are judged node by node (collision verdict, step <= 3 steps, limits by TLC's OnArc, exact endpoints, cancellation).",
          "1-D integer world makes the extend arithmetic exact in f64; kd-tree tie order is nondeterministic in the model; thread_rng of the real planner is sampled.", "4/C13"),
+ "C12": ("TLC model checking of the strategy race and probing algorithm (spec/Stroke.tla, MC_Stroke: all interleavings x all oracle outcomes) + trace validation of real plans with a grammar automaton and per-waypoint clauses (Trace_Stroke), hook H4 window kinds",
+         "RaceOK (the stop flag never turns success into failure; only viable strategies are returned), GrammarOK and OrderOK hold in all 900k states of the bounded model; every waypoint of every real plan (free / grazing / blocking obstacle, include on/off, cost limits, depths, rayon pools, repeats) is one event: start configuration, flags grammar, collision verdict, limits by OnArc, originals reproduced by the independent forward model, interpolated points on the segment, transition cost, schedule independence of success.",
+         "Conditional property: failing to plan is not a violation, a run with no successful plan is a tool error; RRT randomness and rayon schedules of the real planner are sampled.", "4/C12"),
 }
 
 REASON_TODO = "check not built yet in this round (planned, see DESIGN.md section 9); not claimed until it runs"
